@@ -1,7 +1,186 @@
-/-  C17/Driver — line protocol front end (core-only).  Placeholder until the property is built. -/
-import OttoVerif.Base.Proto
-namespace OttoVerif.C17.Driver
+/-
+  C17/Driver — line protocol front end (core-only).
 
-def handle (_ws : List String) : String := "bad-op"
+  S <depth> <srchex> cfg:<settings> R:<roots> <node>*     structural request: the dump of the ORIGINAL
+        runtime's reachable heap (node i is the i-th token; references are indices or `-`).
+        model = observe(cloneRuntime^depth(dump)), overlap with the older heaps, `u1`, settings
+        spec  = observe(dump), `ov0`, `u1`, settings
+  I <depth> <side> <Hhex> <Mhex> exp:<tok>                isolation / continuation request; the
+        oracle token (computed by the harness on a freshly replayed runtime) is the spec.
+  P <probe> …                                              defect probes (see `probe`).
+-/
+import OttoVerif.Base.Proto
+import OttoVerif.C17.Spec
+namespace OttoVerif.C17.Driver
+open OttoVerif.Proto OttoVerif.C17
+
+def unhex (s : String) : Option String :=
+  if s.isEmpty then some "" else
+  match bytes? s with
+  | some bs => String.fromUTF8? (ByteArray.mk (bs.map (fun b => UInt8.ofNat b)).toArray)
+  | none => none
+
+def ref? (s : String) : Option (Option Addr) :=
+  if s = "-" then some none else s.toNat?.map some
+
+def addr? (s : String) : Option Addr := s.toNat?
+
+def val? (s : String) : Option Val :=
+  if s.startsWith "=" then some (.prim (s.drop 1).toString)
+  else if s.startsWith "@" then (addr? (s.drop 1).toString).map .ref
+  else none
+
+def list? {α : Type} (sep : String) (f : String → Option α) (s : String) : Option (List α) :=
+  if s.isEmpty then some [] else (s.splitOn sep).mapM f
+
+def pval? (s : String) : Option PVal :=
+  if s = "x" then some .bad
+  else if s.startsWith "d" then (val? (s.drop 1).toString).map .data
+  else if s.startsWith "a" then
+    match ((s.drop 1).toString).splitOn "/" with
+    | [g, t] => do let g ← ref? g; let t ← ref? t; pure (.acc g t)
+    | _ => none
+  else none
+
+def prop? (s : String) : Option PropE :=
+  match s.splitOn ":" with
+  | [n, m, v] => do let n ← unhex n; let m ← m.toNat?; let v ← pval? v; pure { name := n, mode := m, val := v }
+  | _ => none
+
+def binding? (s : String) : Option Binding :=
+  match s.splitOn ":" with
+  | [n, f, v] => do let n ← unhex n; let f ← f.toNat?; let v ← val? v; pure { name := n, flags := f, val := v }
+  | _ => none
+
+def payload? (s : String) : Option Payload :=
+  let body := (s.drop 1).toString
+  if s.startsWith "N" then some (.other body)
+  else if s.startsWith "G" then some (.native body)
+  else if s.startsWith "B" then
+    match body.splitOn ";" with
+    | t :: th :: as => do let t ← addr? t; let th ← val? th; let as ← as.mapM val?; pure (.bound t th as)
+    | _ => none
+  else if s.startsWith "C" then
+    match body.splitOn ";" with
+    | [n, st] => do let st ← ref? st; pure (.nodeFn n st)
+    | _ => none
+  else if s.startsWith "A" then
+    match body.splitOn ";" with
+    | st :: ns => do let st ← ref? st; let ns ← ns.mapM unhex; pure (.arguments ns st)
+    | _ => none
+  else none
+
+def idx? (s : String) : Option (String × String) :=
+  match s.splitOn ":" with
+  | [k, v] => do let k ← unhex k; let v ← unhex v; pure (k, v)
+  | _ => none
+
+def node? (s : String) : Option Node :=
+  match s.splitOn "|" with
+  | ["O", rt, cls, klass, ext, proto, props, payload] => do
+    let rt ← rt.toNat?; let cls ← unhex cls; let proto ← ref? proto
+    let props ← list? "," prop? props; let payload ← payload? payload
+    pure (.obj { rt := rt, cls := cls, klass := klass, ext := ext = "1", proto := proto, props := props, payload := payload })
+  | ["D", rt, outer, bs] => do
+    let rt ← rt.toNat?; let outer ← ref? outer; let bs ← list? "," binding? bs
+    pure (.dcl rt outer bs)
+  | ["F", rt, outer, bs, args, idx] => do
+    let rt ← rt.toNat?; let outer ← ref? outer; let bs ← list? "," binding? bs
+    let args ← ref? args; let idx ← list? "," idx? idx
+    pure (.fn rt outer bs args idx)
+  | ["E", rt, outer, object] => do
+    let rt ← rt.toNat?; let outer ← ref? outer; let object ← addr? object
+    pure (.ost rt outer object)
+  | _ => none
+
+def number {α : Type} : List α → Nat → List (Nat × α)
+  | [], _ => []
+  | x :: xs, i => (i, x) :: number xs (i + 1)
+
+def roots? (s : String) : Option Roots :=
+  match (s.splitOn ",").mapM addr? with
+  | some (g :: rest) =>
+    if rest.length = 34 then
+      some { globalObject := g, globals := rest.take 32, eval := rest.getD 32 0, globalStash := rest.getD 33 0 }
+    else none
+  | _ => none
+
+/-- `Copy()` applied `d` times in a chain (copies of copies); returns the joint heap, the last
+    runtime's roots and identity, and the first address the last copy allocated. -/
+def copyChain : Nat → Nat → Heap → Addr → Roots → Res (Heap × Roots × Nat × Addr)
+  | 0, r, h, base, roots => .ok (h, roots, r, base)
+  | d + 1, r, h, base, roots =>
+    match cloneRuntime (r + 1) h base (h.length + 2) roots with
+    | .ok c =>
+      if d = 0 then .ok (c.out ++ h, c.roots, r + 1, base)
+      else copyChain d (r + 1) (c.out ++ h) c.next c.roots
+    | .panic => .panic
+    | .fuel => .fuel
+
+/-! deviation regions: decidable predicates on the request -/
+
+/-- the global object's own `eval` is no longer the data property holding `rt.eval` -/
+def devEval (h : Heap) (roots : Roots) : Bool :=
+  match look roots.globalObject h with
+  | some (.obj go) =>
+    match findProp "eval" go.props with
+    | some { val := .data (.ref e), .. } => e != roots.eval
+    | _ => true
+  | _ => true
+
+/-- some function stash never got an arguments object (a parameter is called `arguments`) -/
+def devNoArguments (h : Heap) : Bool :=
+  h.any (fun kv => match kv.2 with | .fn _ _ _ none _ => true | _ => false)
+
+def devS (h : Heap) (roots : Roots) : String :=
+  let ds := (if devEval h roots then ["eval_rebound"] else []) ++ (if devNoArguments h then ["fnstash_nil_arguments"] else [])
+  if ds.isEmpty then "-" else joinWith "," ds
+
+def reply (m s d : String) : String := m ++ " " ++ s ++ " " ++ d
+
+def handleS (depth : Nat) (cfg : String) (rootsTok : String) (nodeToks : List String) : String :=
+  match roots? rootsTok, nodeToks.mapM node? with
+  | some roots, some nodes =>
+    let h : Heap := number nodes 0
+    let base := h.length
+    let spec := "ok:" ++ observe 0 h roots ++ ":ov0:u1:" ++ cfg
+    let model := match copyChain depth 0 h base roots with
+      | .ok (h', roots', r', lastBase) => "ok:" ++ observe r' h' roots' ++ ":ov" ++ toString (overlap h' roots' lastBase) ++ ":u1:" ++ cfg
+      | .panic => "panic"
+      | .fuel => "fuel"
+    reply model spec (devS h roots)
+  | _, _ => "bad-op"
+
+def contains (s pat : String) : Bool := (s.splitOn pat).length > 1
+
+/-- defect probes: tiny models of behaviour that is not a function of the dumped heap.
+    `P caller <depth>`: `function g(){return f()} function f(){return f.caller===g}`; `g()` run on the copy.
+      The `caller` getter is a Go closure over the ORIGINAL runtime and function object
+      (type_function.go:140); cloned functions share it, so on a copy it walks the original's
+      (empty) scope chain and answers null. -/
+def probe : List String → String
+  | ["caller", d] => match d.toNat? with
+    | some 0 => reply "true" "true" "-"
+    | some _ => reply "false" "true" "caller_getter"
+    | none => "bad-op"
+  | _ => "bad-op"
+
+def handle (ws : List String) : String :=
+  match ws with
+  | "S" :: depth :: _src :: cfg :: rootsTok :: nodeToks =>
+    match depth.toNat?, cfg.startsWith "cfg:", rootsTok.startsWith "R:" with
+    | some d, true, true => handleS d (cfg.drop 4).toString (rootsTok.drop 2).toString nodeToks
+    | _, _, _ => "bad-op"
+  | ["I", _depth, _side, h, m, exp] =>
+    if exp.startsWith "exp:" then
+      let e := (exp.drop 4).toString
+      -- `.caller` is outside the checked fragment of this request kind (it has its own probe)
+      let dev := match unhex h, unhex m with
+        | some hs, some ms => if contains hs "caller" || contains ms "caller" then "caller_getter" else "-"
+        | _, _ => "-"
+      reply e e dev
+    else "bad-op"
+  | "P" :: rest => probe rest
+  | _ => "bad-op"
 
 end OttoVerif.C17.Driver
